@@ -980,6 +980,135 @@ def run_history(h):
     return None, False
 
 
+# ---------------------------------------------------------------- round 3c: model-SELECTING estimators under target rotation
+SEL_SCORINGS = [None, None, "neg_mean_squared_error", "neg_root_mean_squared_error", "r2", "neg_mean_absolute_error",
+                "default_estimator"]
+
+
+def gen_selrot_case(rng):
+    """user Ridge2FoldCV with a multi-alpha grid (and the default estimator) on targets whose columns have
+    clearly different variances, so that the cross-validated selection matters; the target is then rotated /
+    reflected by an orthogonal matrix under which the scorer is invariant in exact arithmetic"""
+    G = lambda r, c: np.array([[rng.gauss(0, 1) for _ in range(c)] for _ in range(r)])  # noqa: E731
+    n, p, q = rng.randint(28, 64), rng.randint(2, 6), rng.randint(2, 4)
+    col = np.geomspace(1, 10.0 ** rng.uniform(-1.5, 0), p)
+    X = G(n, p) * col
+    w = G(p, 1) / col[:, None]
+    Y = np.hstack([rng.uniform(2, 6) * (X @ w) / max(1e-9, float(np.std(X @ w))) + rng.uniform(0.1, 0.6) * G(n, 1),
+                   rng.uniform(0.3, 1.2) * (G(n, q - 1) + rng.uniform(0, 0.3) * X @ G(p, q - 1))])
+    if rng.random() < 0.5:
+        Y = Y[:, rng.sample(range(q), q)]
+    scoring = rng.choice(SEL_SCORINGS)
+    m = rng.randint(2, 25)
+    kind = rng.choice(["abs_tik", "abs_tik", "abs_cut", "rel_cut", "rel_tik"])
+    if kind == "abs_tik":
+        grid = dict(alpha_type="absolute", regularization_method="tikhonov",
+                    alphas=[float(a) for a in np.geomspace(1e-4, 1e2, m)])
+    elif kind == "abs_cut":
+        grid = dict(alpha_type="absolute", regularization_method="cutoff",
+                    alphas=[float(a) for a in np.geomspace(1e-3, 3.0, m)])
+    elif kind == "rel_cut":
+        grid = dict(alpha_type="relative", regularization_method="cutoff",
+                    alphas=[float(a) for a in np.geomspace(1e-6, 0.9, m)])
+    else:
+        grid = dict(alpha_type="relative", regularization_method="tikhonov",
+                    alphas=[float(a) for a in np.geomspace(1e-6, 0.9, m)])
+    params = None if scoring == "default_estimator" else dict(
+        grid, scoring=scoring, random_state=rng.randint(0, 99), shuffle=True)
+    rot_ok = scoring in (None, "neg_mean_squared_error")      # mean squared error: invariant under every orthogonal R
+    if rot_ok and rng.random() < 0.8:
+        R = _orth(rng, q)
+        rkind = "rotation/reflection"
+    else:
+        perm = rng.sample(range(q), q)
+        R = np.zeros((q, q))
+        for a, b in enumerate(perm):
+            R[a, b] = rng.choice([-1.0, 1.0])
+        if np.array_equal(np.abs(R), np.eye(q)) and np.all(np.diag(R) > 0):
+            R[0, 0] = -1.0
+        rkind = "signed permutation"
+    idx = list(range(n))
+    rng.shuffle(idx)
+    ntr = rng.randint(max(2 * p + 8, n // 2), n - 4)
+    explicit = rng.random() < 0.6
+    tr = idx[:ntr] if explicit else None
+    ntrain = ntr if explicit else n // 2
+    return dict(kind="selrot", X=X.tolist(), Y=Y.tolist(), R=R.tolist(), rkind=rkind, params=params,
+                measure=rng.choice(["gre", "grd", "lre"]), k=rng.randint(min(ntrain, p + 4), ntrain),
+                train_idx=tr, test_idx=idx[ntr:] if explicit else None)
+
+
+def _sel_est(c):
+    return None if c["params"] is None else _build_est("r2f", c["params"])
+
+
+def _sel_gap(est, Xd, Yd):
+    """(relative gap between the best cross-validation score and the best DIFFERENT one, cond of the design).
+    Alphas whose scores are bitwise equal to the best (same retained directions) stay tied under a rotation."""
+    est.fit(Xd, Yd)
+    v = np.array(est.cv_values_, dtype=float)
+    best = float(v.max())
+    oth = v[v != best]
+    gap = float("inf") if oth.size == 0 else (best - float(oth.max())) / max(abs(best), 1e-300)
+    sv = np.linalg.svd(Xd, compute_uv=False)
+    return gap, (float(sv[0] / sv[-1]) if sv[-1] > 0 else float("inf"))
+
+
+def selrot_gates(c):
+    """per test point: (compare?, cond) - the selection of the fit that produces this value is not a near-tie"""
+    X, Y = np.array(c["X"]), np.array(c["Y"])
+    tr, te = resolve_split(c)
+    Xs_tr, Xs_te = standardise(X[tr], X[tr]), standardise(X[tr], X[te])
+    Ys_tr = standardise(Y[tr], Y[tr])
+    mk = (lambda: make_ill_estimator("r2f_grid")) if c["params"] is None else (lambda: _sel_est(c))
+    GAP = 1e-7
+    if c["measure"] != "lre":
+        gap, cond = _sel_gap(mk(), Xs_tr, Ys_tr)
+        return [(gap > GAP and cond < 1e6, cond)] * len(te)
+    out = []
+    D = (Xs_tr ** 2).sum(axis=1) + (Xs_te ** 2).sum(axis=1)[:, None] - 2 * Xs_te @ Xs_tr.T
+    k = c["k"]
+    for i in range(len(te)):
+        order = np.argsort(D[i], kind="stable")
+        nb = order[:k]
+        if k < len(tr) and D[i][order[k]] - D[i][order[k - 1]] < 1e-8:
+            out.append((False, 1.0))
+            continue
+        lx, ly = Xs_tr[nb], Ys_tr[nb]
+        gap, cond = _sel_gap(mk(), lx - lx.mean(axis=0), ly - ly.mean(axis=0))
+        out.append((gap > GAP and cond < 1e6, cond))
+    return out
+
+
+def run_selrot(c):
+    """None, ('gated', n_compared) or a message"""
+    X, Y, R = np.array(c["X"]), np.array(c["Y"]), np.array(c["R"])
+    step = dict(c, X=c["X"], Y=c["Y"])
+    try:
+        v0 = _hist_call(step, _sel_est(c), None)
+        v1 = _hist_call(dict(step, Y=(Y @ R).tolist()), _sel_est(c), None)
+    except Exception as e:  # noqa
+        return "%s raised %s: %s" % (c["measure"], type(e).__name__, str(e)[:200])
+    if v0.shape != v1.shape or not (np.all(np.isfinite(v0)) and np.all(np.isfinite(v1))):
+        return "non-finite values or shapes %s / %s" % (v0.shape, v1.shape)
+    gates = selrot_gates(c)
+    ncmp = 0
+    for i, (ok, cond) in enumerate(gates):
+        if not ok:
+            continue
+        ncmp += 1
+        _, rtol, atol = tolerances(cond)
+        if abs(v0[i] - v1[i]) > 10 * atol + 10 * rtol * max(abs(v0[i]), abs(v1[i])):
+            sc = "the default estimator" if c["params"] is None else "Ridge2FoldCV(scoring=%r, %s %s, %d alphas)" % (
+                c["params"]["scoring"], c["params"]["alpha_type"], c["params"]["regularization_method"],
+                len(c["params"]["alphas"]))
+            return ("%s changes under a %s of the target space with %s: pointwise value %d is %.6g, after the "
+                    "transformation %.6g (the scorer is invariant under it; selection gap above 1e-7)" % (
+                        c["measure"].upper(), c["rkind"], sc, i, v0[i], v1[i]))
+    return None if ncmp == len(gates) else ("gated", ncmp)
+
+
+
 def run_round3b(ctx, stats):
     n_ill, n_hist = (140, 45) if ctx.quick else (900, 300)
     st = stats["round3b"] = dict(illcond={}, ill_gated={}, ill_max_ratio_to_bound=0.0, histories=0, history_calls=0,
@@ -1014,7 +1143,23 @@ def run_round3b(ctx, stats):
             C.report_violation(ctx, ("C13 fails on the implementation: " if valdiff else "C13 object history: ") + msg,
                                dict(case=h, correspondence="reused vs freshly constructed estimator / scaler objects"),
                                found_input=valdiff)
-    return n_ill + n_hist
+    n_sel = 110 if ctx.quick else 700
+    ss = stats["round3c"] = dict(cases=0, fully_compared=0, partly_gated=0, by_scoring={}, failures=0)
+    for _ in range(n_sel):
+        c = gen_selrot_case(ctx.rng)
+        v = run_selrot(c)
+        ss["cases"] += 1
+        key = "%s/%s" % ("default_estimator" if c["params"] is None else c["params"]["scoring"], c["rkind"])
+        ss["by_scoring"][key] = ss["by_scoring"].get(key, 0) + 1
+        if v is None:
+            ss["fully_compared"] += 1
+        elif isinstance(v, tuple):
+            ss["partly_gated"] += 1
+        else:
+            ss["failures"] += 1
+            if ss["failures"] <= 4:
+                C.report_violation(ctx, "C13 fails on the implementation: " + v, dict(case=c), found_input=True)
+    return n_ill + n_hist + n_sel
 
 
 
@@ -1175,6 +1320,11 @@ def replay(ctx, obj):
                or (not r["raises"] and (r["train"], r["test"]) != (exp["train"], exp["test"])))
         print("replay:", "input check still differs: expected %s observed %s" % (exp, r) if bad
               else "input check agrees with its model on this input now")
+        return 1 if bad else 0
+    if c.get("kind") == "selrot":
+        v = run_selrot(c)
+        bad = bool(v) and not isinstance(v, tuple)
+        print("replay:", v if bad else "invariant under the target transformation on this input now")
         return 1 if bad else 0
     if c.get("kind") == "illcond":
         v = ill_verdict(c, run_ill_case(c))
